@@ -184,12 +184,45 @@ Definition hs_contract (regs : list hvec) (g : gn) (h : hintsrc) (n : wname) : P
   | HsNone => True
   end.
 
+(* hints are only looked at in standard compression mode *)
 Definition op_contract (d : dstate) (g : gn) (o : wop) : Prop :=
   match o with
-  | OAddRr _ h n _ _ _ _ _ => hs_contract (d_regs d) g h n
-  | OAddRrset _ h n _ _ _ _ _ => hs_contract (d_regs d) g h n
+  | OAddRr _ h n _ _ _ _ _ => w_mode (d_w d) = Standard -> hs_contract (d_regs d) g h n
+  | OAddRrset _ h n _ _ _ _ _ => w_mode (d_w d) = Standard -> hs_contract (d_regs d) g h n
   | _ => True
   end.
+
+Lemma hinted_nonstd h n w : w_mode w <> Standard -> write_hinted_name h n w = write_hinted_name HNone n w.
+Proof. intros Hm. unfold write_hinted_name. destruct (w_mode w); congruence. Qed.
+
+Lemma add_rr_nonstd h owner ty cl ttl rd v w : w_mode w <> Standard ->
+  add_rr h owner ty cl ttl rd v w = add_rr HNone owner ty cl ttl rd v w.
+Proof. intros Hm. unfold add_rr. rewrite (hinted_nonstd h owner w Hm). reflexivity. Qed.
+
+Lemma rrset_loop_nonstd h owner ty cl ttl rds v k w : w_mode w <> Standard ->
+  add_rrset_loop h owner ty cl ttl rds v k w = add_rrset_loop HNone owner ty cl ttl rds v k w.
+Proof. intros Hm. destruct rds as [|rd rest]; [reflexivity|]. simpl. rewrite (add_rr_nonstd h _ _ _ _ _ _ _ Hm). reflexivity. Qed.
+
+Lemma change_section_mode s w u w1 : change_section s w = Ok (u, w1) -> w_mode w1 = w_mode w.
+Proof. unfold change_section. destruct s; destruct (w_section w); intros H; inversion H; subst; reflexivity. Qed.
+
+Lemma step_rr_nonstd d s h n ty cl ttl rd vec : w_mode (d_w d) <> Standard ->
+  step d (OAddRr s h n ty cl ttl rd vec) = step d (OAddRr s HsNone n ty cl ttl rd vec).
+Proof.
+  intros Hm. cbn [step]. f_equal. unfold add_section_rr, with_rollback.
+  destruct (change_section s (d_w d)) as [[[] w1]|[e w1]|] eqn:E; cbn [bind]; auto.
+  rewrite (add_rr_nonstd (resolve_hint (d_regs d) h)); [reflexivity|].
+  rewrite (change_section_mode _ _ _ _ E). exact Hm.
+Qed.
+
+Lemma step_rrset_nonstd d s h n ty cl ttl rds vec : w_mode (d_w d) <> Standard ->
+  step d (OAddRrset s h n ty cl ttl rds vec) = step d (OAddRrset s HsNone n ty cl ttl rds vec).
+Proof.
+  intros Hm. cbn [step]. f_equal. unfold add_section_rrset, with_rollback.
+  destruct (change_section s (d_w d)) as [[[] w1]|[e w1]|] eqn:E; cbn [bind]; auto.
+  rewrite (rrset_loop_nonstd (resolve_hint (d_regs d) h)); [reflexivity|].
+  rewrite (change_section_mode _ _ _ _ E). exact Hm.
+Qed.
 
 Definition op_wf (o : wop) : Prop :=
   match o with
@@ -693,8 +726,16 @@ Proof.
   intros Hi Hwf Hc. pose proof (a_n _ _ _ Hi) as Hn.
   destruct o; simpl in Hwf, Hc;
     try (eapply step_question; eauto; fail);
-    try (destruct Hwf; eapply step_rr; eauto; fail);
-    try (destruct Hwf; eapply step_rrset; eauto; fail);
+    try (match type of Hc with (_ = Standard -> _) => idtac end;
+         destruct Hwf as [W1 W2]; destruct (w_mode (d_w d)) eqn:Em;
+         [eapply step_rr; eauto
+         |unfold step_ok; rewrite step_rr_nonstd by congruence; exact (step_rr d g L _ HsNone _ _ _ _ _ _ Hi W1 W2 I)
+         |unfold step_ok; rewrite step_rr_nonstd by congruence; exact (step_rr d g L _ HsNone _ _ _ _ _ _ Hi W1 W2 I)]; fail);
+    try (match type of Hc with (_ = Standard -> _) => idtac end;
+         destruct Hwf as [W1 W2]; destruct (w_mode (d_w d)) eqn:Em;
+         [eapply step_rrset; eauto
+         |unfold step_ok; rewrite step_rrset_nonstd by congruence; exact (step_rrset d g L _ HsNone _ _ _ _ _ _ Hi W1 W2 I)
+         |unfold step_ok; rewrite step_rrset_nonstd by congruence; exact (step_rrset d g L _ HsNone _ _ _ _ _ _ Hi W1 W2 I)]; fail);
     unfold step_ok; cbn [step].
   - (* set_id *) destruct (hdr_write_ok d g L (N.to_nat ID_START) (be16 v) Hi ltac:(cbv; lia)) as [w' [E [H _]]].
     unfold set_id. rewrite E. simpl. eauto.
